@@ -82,6 +82,19 @@ def handle (cmd : String) (args : List Int) : Option String :=
       let (d, w, m) ← run (do let d ← dialectP; let w ← nat; let m ← meshP; pure (d, w, m)) args
       let s := encodeUgrid d w m
       pure s!"{encOptCell s.fillAttr} {encOptInt s.startAttr} {encRaw s.cells}"
+  | "C01.sniff" => do
+      let b ← run (many bool 13) args
+      match b with
+      | [a1, a2, a3, a4, a5, a6, a7, a8, a9, a10, a11, a12, a13] =>
+        let k : Markers := ⟨a1, a2, a3, a4, a5, a6, a7, a8, a9, a10, a11, a12, a13⟩
+        pure (match sniff k with
+          | none => "0" | some .exodus => "1" | some .scrip => "2" | some .ugrid => "3" | some .mpas => "4"
+          | some .esmf => "5" | some .geos => "6" | some .icon => "7")
+      | _ => none
+  | "C01.undeclared" => do
+      -- right-hand side of `ugrid_undeclared_decodes`: the element lists counted from their lowest index
+      let (w, m) ← run (do let w ← nat; let m ← meshP; pure (w, m)) args
+      pure (encRows (pad w (rebase (lowest m) m)))
   | "C01.topology" => do
       let (fv, start, c) ← run (do
         let fv ← optCellP; let s ← int; let c ← rawP; pure (fv, s, c)) args
